@@ -703,7 +703,7 @@ def _ringbound_rule(chk, prog):
                               "%s `%s` in %s does not compare the ring index with the queue's capacity itself (`<` / `>=` / `==` capacity): the "
                               "slots are 0 .. capacity-1 and all of them hold items once the ring has wrapped, so this bound skips "
                               "the last slot or steps past the array" % (ctx, cond.text(), fn.name))
-    chk.floor(rule, 6, n)
+    chk.floor(rule, 3, n)
 
 
 def _runq_rule(chk, prog):
